@@ -1150,11 +1150,14 @@ impl Runner {
         }
         self.tick_gap().await;
         let (wref, pi) = self.w.pending_wru.remove(idx % self.w.pending_wru.len());
-        let enr = match known % 4 {
+        let enr = match known % 5 {
             0 => None,
             1 => Some(self.w.peers[pi].enrs[0].clone()),
             2 => Some(self.w.peers[pi].enrs[1].clone()),
-            _ => Some(self.w.peers[pi].enrs[2].clone()),
+            3 => Some(self.w.peers[pi].enrs[2].clone()),
+            // a record the application holds that advertises another address than the peer uses
+            // (added by the user or learnt from a NODES response: never checked against a source)
+            _ => Some(self.w.peers[pi].enrs[3].clone()),
         };
         let na = (self.w.it.id(&wref.0.node_id), self.w.it.addr(&wref.0.socket_addr));
         let n = self.w.it.nonce(&whoareyou_ref_nonce(&wref));
@@ -1644,7 +1647,7 @@ fn gen_move(rng: &mut Rng, npeers: usize, focus: &str) -> Move {
     match rng.weighted(w) {
         0 => Move::AppRequest { peer: p_req, with_enr: rng.chance(2, 3), kind: rng.below(3) as u8 },
         1 => Move::AppSelfRequest,
-        2 => Move::AppAnswerWru { idx: rng.below(8) as usize, known: rng.below(4) as u8 },
+        2 => Move::AppAnswerWru { idx: rng.below(8) as usize, known: *rng.pick(&[0u8, 1, 2, 3, 3, 4]) },
         3 => Move::AppRespond { idx: rng.below(8) as usize, multi: rng.below(3) as u8 },
         4 => Move::NetRandom { peer: p },
         5 => {
